@@ -32,6 +32,7 @@ import Mathlib.LinearAlgebra.Matrix.Trace
 import Mathlib.Analysis.InnerProductSpace.Positive
 import Mathlib.Analysis.SpecialFunctions.Log.Basic
 import QV.Lemmas.Swap
+import QV.Lemmas.Unbiased
 import QV.Props.C08
 import QV.Props.C02
 
@@ -384,6 +385,126 @@ theorem C09_region (A : List Int) :
     have := hall k hk
     simp only [decide_eq_true_eq] at this
     omega
+
+
+/-! ### Composition with the sampler: the batch mean on i.i.d. rows (extension round, package X3)
+
+`C09_purity` averages over INDEPENDENT pairs `(s₁, s₂) ~ p ⊗ p`.  The code never forms such pairs explicitly: `apply` pairs row `i`
+of the batch with row `(i − 1) mod B` (`C09_pairing`, `C09_no_mutation`: the returned list is
+`zipWith swapApply rows (roll1 rows)`, i.e. entry `i` is `swapApply (rows i) (rows (rollIdx B i))`, `C09_batch_list_form`).
+If the `B` rows are i.i.d. draws from `p` (e.g. `B` independent chains each started from `p` and advanced by the `k`-step sampler,
+which keeps the product law `p^{⊗B}`: `C08_born_stationary`, `QV.prod_invariant`), then for `B ≥ 2` every pair `(i, i−1 mod B)`
+consists of two DIFFERENT rows, hence is an independent pair, and the expectation of the batch mean is the purity
+(`C09_batch_mean_unbiased`; the `B` pairs are not independent of each other — only linearity is used).  For `B = 1` the single
+sample is paired with itself, the value is identically 1 and the estimate is biased whenever the purity is below 1
+(`C09_single_row`, `C09_single_row_biased`). -/
+
+section batch
+open QV.Stats
+
+/-- the list `SWAP.apply` returns on a batch with rows `vs` (by `C09_no_mutation`), entry by entry -/
+theorem C09_batch_list_form (S : ImpState ℝ n) (A : Fin n → Bool) {B : ℕ} (vs : Fin B → Cfg n) :
+    List.zipWith (swapApply S A) (List.ofFn vs) (roll1 (List.ofFn vs))
+      = List.ofFn (fun i : Fin B => swapApply S A (vs i) (vs (rollIdx B i))) := by
+  apply List.ext_getElem
+  · simp [roll1_length]
+  · intro i h1 h2
+    have hi : i < B := by simpa using h2
+    have hl : (List.ofFn vs).length = B := List.length_ofFn
+    rw [List.getElem_zipWith, roll1_getElem _ i (by rw [hl]; exact hi)]
+    simp only [List.getElem_ofFn]
+    congr 2
+    apply Fin.ext
+    simp only [rollIdx_val, hl]
+
+/-- **(c) the batch mean of `SWAP.apply` on `B ≥ 2` i.i.d. rows is unbiased for the purity**, every region, every state the
+importance-sampling interface represents (`p` a probability distribution). -/
+theorem C09_batch_mean_unbiased {S : ImpState ℝ n} {G : Op n} {p : Cfg n → ℝ} (h : Represents S G p)
+    (hp : ∑ σ, p σ = 1) (A : Fin n → Bool) (B : ℕ) (hB : 2 ≤ B) :
+    ∑ vs : Fin B → Cfg n, (∏ b, p (vs b)) *
+        ((List.zipWith (swapApply S A) (List.ofFn vs) (roll1 (List.ofFn vs))).sum / B)
+      = (purity A (normalised G)).re := by
+  have key : ∀ i : Fin B, ∑ vs : Fin B → Cfg n, (∏ b, p (vs b)) * swapApply S A (vs i) (vs (rollIdx B i))
+      = (purity A (normalised G)).re := by
+    intro i
+    rw [sum_prod_marginal2 p hp i (rollIdx B i) (Ne.symm (rollIdx_ne B hB i)) (fun a c => swapApply S A a c)]
+    exact C09_purity h A
+  have hBR : (B : ℝ) ≠ 0 := by positivity
+  simp only [C09_batch_list_form, List.sum_ofFn, ← mul_div_assoc, Finset.mul_sum]
+  rw [← Finset.sum_div, Finset.sum_comm]
+  simp only [key]
+  rw [Finset.sum_const, Finset.card_univ, Fintype.card_fin, nsmul_eq_mul]
+  field_simp
+
+/-- **one row**: a sample paired with itself has value exactly 1, whatever the state, the region and the sample. -/
+theorem C09_single_row {S : ImpState ℝ n} {G : Op n} {p : Cfg n → ℝ} (h : Represents S G p) (A : Fin n → Bool)
+    (s : Cfg n) : swapApply S A s s = 1 := by
+  have hw : Obs.toC (S.weight s s) = 1 := by rw [C08_importance_weight h, div_self (h.nz s)]
+  show (Obs.toC (C.mul (S.weight (combine s s A) s) (S.weight (combine s s A) s))).re = 1
+  rw [combine_self, Obs.toC_mul, hw]
+  simp
+
+/-- … so on a one-row batch (`torch.roll` of one row is that row) `SWAP.apply` returns `[1]` and the expectation of the
+"batch mean" over a row drawn from `p` is 1 — not the purity. -/
+theorem C09_single_row_mean {S : ImpState ℝ n} {G : Op n} {p : Cfg n → ℝ} (h : Represents S G p)
+    (hp : ∑ σ, p σ = 1) (A : Fin n → Bool) :
+    (∀ vs : Fin 1 → Cfg n, List.zipWith (swapApply S A) (List.ofFn vs) (roll1 (List.ofFn vs)) = [1])
+    ∧ ∑ vs : Fin 1 → Cfg n, (∏ b, p (vs b)) *
+        ((List.zipWith (swapApply S A) (List.ofFn vs) (roll1 (List.ofFn vs))).sum / (1 : ℕ)) = 1 := by
+  have h1 : ∀ vs : Fin 1 → Cfg n, List.zipWith (swapApply S A) (List.ofFn vs) (roll1 (List.ofFn vs)) = [1] := by
+    intro vs
+    rw [C09_batch_list_form]
+    have : rollIdx 1 (0 : Fin 1) = 0 := Subsingleton.elim _ _
+    simp [List.ofFn_succ, this, C09_single_row h A]
+  refine ⟨h1, ?_⟩
+  simp only [h1, List.sum_singleton, Nat.cast_one, div_one, mul_one]
+  have := sum_prod_marginal1 (M := 1) p hp 0 (fun _ => (1 : ℝ))
+  simpa [hp] using this
+
+/-- the maximally mixed state of one site, as a `DensityMatrix`-style interface: `ρ = 1`, `probability ≡ 1` -/
+def mixed1 : ImpState ℝ 1 :=
+  ImpState.mixed (fun σ σ' => if σ = σ' then (1, 0) else (0, 0)) (fun _ => 1)
+
+/-- **one row is biased (witness)**: for the maximally mixed state of one site and the region `{0}` the purity is `1/2`, the
+i.i.d. batch mean with `B ≥ 2` rows has expectation `1/2`, the one-row "batch mean" has expectation `1`. -/
+theorem C09_single_row_biased :
+    let rho : Cfg 1 → Cfg 1 → C ℝ := fun σ σ' => if σ = σ' then (1, 0) else (0, 0)
+    let p : Cfg 1 → ℝ := bornMixed (fun _ => 1)
+    let A : Fin 1 → Bool := fun _ => true
+    Represents mixed1 (dmMixed rho) p ∧ ∑ σ, p σ = 1
+    ∧ (purity A (normalised (dmMixed rho))).re = 1 / 2
+    ∧ ∑ vs : Fin 1 → Cfg 1, (∏ b, p (vs b)) *
+        ((List.zipWith (swapApply mixed1 A) (List.ofFn vs) (roll1 (List.ofFn vs))).sum / (1 : ℕ)) = 1 := by
+  intro rho p A
+  have hrep : Represents mixed1 (dmMixed rho) p :=
+    C08_represents_mixed rho (fun _ => 1) (fun σ => by simp [rho]) (fun _ => one_ne_zero)
+  have hcard : Fintype.card (Cfg 1) = 2 := by simp
+  have hp : ∑ σ, p σ = 1 := by
+    simp only [p, bornMixed, Finset.sum_const, Finset.card_univ, hcard]
+    norm_num
+  refine ⟨hrep, hp, ?_, (C09_single_row_mean hrep hp A).2⟩
+  have hT : ∑ τ : Cfg 1, dmMixed rho τ τ = 2 := by
+    simp only [dmMixed, rho, if_true, Obs.toC_mk, Finset.sum_const, Finset.card_univ, hcard]
+    simp [Complex.ext_iff]
+  have hR : ∀ σ σ' : Cfg 1, normalised (dmMixed rho) σ σ' = if σ = σ' then 1 / 2 else 0 := by
+    intro σ σ'
+    simp only [normalised, hT]
+    by_cases hσ : σ = σ'
+    · simp [dmMixed, rho, hσ, Complex.ext_iff]
+    · simp [dmMixed, rho, hσ, Complex.ext_iff]
+  rw [purity_eq_pairs]
+  simp only [A, combine_full, hR]
+  simp only [ite_mul, zero_mul]
+  norm_num
+
+/-- non-vacuity of `C09_batch_mean_unbiased`: the witness state, three i.i.d. rows -/
+example : ∑ vs : Fin 3 → Cfg 1, (∏ b, bornMixed (fun _ => (1 : ℝ)) (vs b)) *
+      ((List.zipWith (swapApply mixed1 (fun _ => true)) (List.ofFn vs) (roll1 (List.ofFn vs))).sum / (3 : ℕ)) = 1 / 2 := by
+  obtain ⟨hrep, hp, hpur, _⟩ := C09_single_row_biased
+  rw [← hpur]
+  exact C09_batch_mean_unbiased hrep hp _ 3 (by norm_num)
+
+end batch
 
 /-- non-vacuity: complex RBM state, region `{0}` of two sites -/
 example : let am : RBM ℝ 2 3 := ⟨fun i j => (i.val : ℝ) - j.val + 0.5, fun j => if j = 0 then -1.5 else 2,
